@@ -63,6 +63,10 @@ def run_child(root: str, ops: list, seed: int, timeout_s: float = 30.0, opts: di
         code = 0
         try:
             os.close(r)
+            try:
+                os.setpgid(0, 0)  # own process group: whatever the code under test forks is reaped with this child
+            except OSError:
+                pass
             signal.signal(signal.SIGALRM, signal.SIG_DFL)
             signal.alarm(int(timeout_s) + 5)
             try:
@@ -110,6 +114,10 @@ def run_child(root: str, ops: list, seed: int, timeout_s: float = 30.0, opts: di
         except ProcessLookupError:
             pass
     _, status = os.waitpid(pid, 0)
+    try:
+        os.killpg(pid, signal.SIGKILL)  # descendants the child left behind (a worker pool of the code under test, ...)
+    except (ProcessLookupError, PermissionError):
+        pass
     if timed_out:
         raise ChildFailure(f"HARNESS-TIMEOUT child exceeded {timeout_s}s")
     if not chunks:
